@@ -14,6 +14,21 @@ Tie between the Lean model (Model/C11.lean) and the working tree, all parts re-r
                   `schedule_independence` (`disciplined`) is evaluated on them by the Lean driver.
  K5 schedules     deterministic scheduler: one thread per task, a `sys.settrace` line hook hands a single run
                   token around according to a PRNG schedule (replayable from (seed, p)).
+ K2b plain refs   every batch result (sequential and concurrent path) against one call per input of the plain,
+                  non-concurrent public entry point of the same family (create_qulacs_vector_estimator, ..._sampler,
+                  ideal samplers, general(op, state), general(op, pstate, params), overlap estimator) and the oracle.
+ K6 general smp.  the five create_qulacs_*general*_sampler factories of sampler.py (three take executor/concurrency):
+                  mixed batches (circuit / state / parametric circuit / parametric state; list, tuple, star form)
+                  vs one call per input vs the oracle.
+ K7 histories     ONE estimator/sampler object, one executor (inline / scheduler / one real thread pool) and the same
+                  input objects over the calls A, B, A, B; between the calls the caller scribbles on the public copies
+                  of the compiled circuits (`.qulacs_circuit`); every call must equal a fresh sequential call.
+
+Argument forms drawn by the generators: operators as Operator / bare label / bare identity / zero operator / zero
+coefficient; states as circuit state, state vector, compiled circuit, parametric state vector; noise models empty /
+BitFlip(0) / BitFlip(1) (deterministic: an X after every gate on each of its qubits); containers list / tuple /
+one-shot iterator (where the signature says Iterable) / numpy arrays for parameters, int zeros; the same input twice
+in a batch (equal or identical object); concurrency given / left out; 2**31 shots; malformed inputs inside a chunk.
 """
 from __future__ import annotations
 
@@ -1933,7 +1948,7 @@ def k6_general_samplers(ctx: Ctx, batches=None):
     if batches is None:
         batches = []
         for name in GENERAL_SAMPLERS:
-            for n in [1, 2, 3, 5] + [rng.randint(2, 7) for _ in range(ctx.n(1, 8))]:
+            for n in [1, 2, 3, 5] + [rng.randint(2, 7) for _ in range(ctx.n(4, 16))]:
                 batches.append(gen_gs_batch(rng, name, n))
     for b in batches:
         name = b["sampler"]
@@ -2044,7 +2059,7 @@ def k7_plan(ctx: Ctx, eps, names=None):
     cases = []
     for name in (names or list(eps)):
         ep = eps[name]
-        for rep in range(ctx.n(1, 4)):
+        for rep in range(ctx.n(2, 6)):
             variant = rng.randrange(ep.variants) if rep else (1 if ep.variants > 1 else 0)  # rep 0: compiled inputs
             bA = ep.gen(rng, rng.randint(2, 6), variant)
             nB = rng.randint(2, 6)
@@ -2270,7 +2285,7 @@ def finish(ctx: Ctx) -> int:
 # ---------------------------------------------------------------------------
 def run(ctx: Ctx, replay=None) -> int:
     ctx.rule = ("cases = (n, concurrency) chunking instances, (entry point, batch, executor, concurrency) runs, worker "
-                "homomorphism splits and audited traces; distinct_nontrivial counts distinct canonical cases with n>=2 and "
+                "homomorphism splits, audited traces, general-sampler batches and call histories; distinct_nontrivial counts distinct canonical cases with n>=2 and "
                 "concurrency>=2 (chunking: n>=1, c>=2); sampled schedules are counted in evaluations only")
     ctx.trusted = TRUSTED
     ctx.assumptions = [
